@@ -759,6 +759,10 @@ func (m *Machine) sortSlice(fr *frame, x Iface, less Value) {
 		orig[i] = *s.At(i)
 	}
 	for i, p := range perm {
+		if p != i && m.lockset != nil && m.locksetOn {
+			// the library's sort only swaps what is out of order: a sorted slice is not written
+			m.lockset.access(m, s.At(i), true, token.NoPos)
+		}
 		*s.At(i) = orig[p]
 	}
 }
